@@ -45,7 +45,8 @@ def write(prop, tier, seed, rows, concrete_rows, lemma_rows, violations, known_h
         'coverage': {
             'states': max(paths, 1),
             'transitions': max(queries, 1),
-            'traces_validated_against_impl': replays + diff_runs,
+            'traces_validated_against_impl': replays + diff_runs + sum(
+                (r.get('native_sweep') or {}).get('values_run', 0) for r in rows),
             'native_replays_of_counterexamples': replays,
             'differential_native_runs': diff_runs,
             'differential_native_runs_reaching_the_assertion': diff_nontrivial,
@@ -56,8 +57,12 @@ def write(prop, tier, seed, rows, concrete_rows, lemma_rows, violations, known_h
             'shards_total': len(rows),
             'shards_decided': len(decided),
             'shards_inconclusive': len(inconclusive),
-            'inconclusive': [{'shard': r['shard'], 'verdict': r['verdict'], 'paths': r.get('paths')}
-                             for r in inconclusive][:200],
+            'inconclusive': [{'shard': r['shard'], 'verdict': r['verdict'], 'paths': r.get('paths'),
+                              'native_sweep': r.get('native_sweep')} for r in inconclusive][:200],
+            'native_sweeps_of_undecided_single_byte_shards': {
+                'shards': sum(1 for r in rows if r.get('native_sweep')),
+                'native_runs': sum((r.get('native_sweep') or {}).get('values_run', 0) for r in rows),
+                'note': 'enumeration of all values of the byte, natively; not a solver result, the shard stays undecided'},
             'solver_seconds': round(sum(r.get('solver_seconds') or 0 for r in rows), 2),
             'functions_encoded': sorted({r['harness'] for r in rows}),
             'shards': rows,
